@@ -15,6 +15,8 @@ pub enum PolKind {
     Plus(usize),
     /// doubles, refuses once the new size would exceed the limit
     DoubleMax(usize),
+    /// answers with the current size (a legal answer that changes nothing) for the first k calls, then doubles
+    Stall(usize),
 }
 
 impl PolKind {
@@ -29,6 +31,7 @@ impl PolKind {
             "refuse" => PolKind::Refuse,
             "plus" => PolKind::Plus(a.max(1)),
             "dmax" => PolKind::DoubleMax(a),
+            "stall" => PolKind::Stall(a),
             _ => PolKind::Std,
         }
     }
@@ -40,6 +43,7 @@ impl PolKind {
             PolKind::Refuse => "{\"k\":\"refuse\",\"a\":0,\"b\":0}".into(),
             PolKind::Plus(a) => format!("{{\"k\":\"plus\",\"a\":{},\"b\":0}}", a),
             PolKind::DoubleMax(a) => format!("{{\"k\":\"dmax\",\"a\":{},\"b\":0}}", a),
+            PolKind::Stall(a) => format!("{{\"k\":\"stall\",\"a\":{},\"b\":0}}", a),
         }
     }
 }
@@ -51,11 +55,12 @@ pub struct ScriptPolicy {
     pub kind: PolKind,
     pub log: GrowLog,
     pub budget: usize,
+    pub asked: usize,
 }
 
 impl ScriptPolicy {
     pub fn new(kind: PolKind, log: GrowLog) -> ScriptPolicy {
-        ScriptPolicy { kind, log, budget: 4000 }
+        ScriptPolicy { kind, log, budget: 4000, asked: 0 }
     }
 }
 
@@ -66,12 +71,20 @@ impl BufPolicy for ScriptPolicy {
             panic!("{}", crate::source::HANG_MSG);
         }
         self.budget -= 1;
+        self.asked += 1;
         let ans = match self.kind {
             PolKind::Std => StdPolicy.grow_to(current),
             PolKind::DoubleUntil(d) => DoubleUntil(d).grow_to(current),
             PolKind::DoubleUntilLimited(d, l) => DoubleUntilLimited::new(d, l).grow_to(current),
             PolKind::Refuse => None,
             PolKind::Plus(k) => Some(current + k),
+            PolKind::Stall(k) => {
+                if self.asked <= k {
+                    Some(current)
+                } else {
+                    Some(current * 2)
+                }
+            }
             PolKind::DoubleMax(m) => {
                 if current * 2 <= m {
                     Some(current * 2)
